@@ -31,7 +31,7 @@ def from_notes(pid):
     a, b = grab('level_claimed.text'), grab('level_note')
     return (a, b) if a and b else None
 # properties whose check is registered (engine label); text comes from CHECKS or from notes/<ID>.md
-REGISTERED = {'C15': 'E1', 'C20': 'E1', 'C19': 'E2', 'C07': 'E3', 'C12': 'E1', 'C10': 'E1+E5', 'C16': 'E1', 'C18': 'E1', 'C02': 'E2', 'C03': 'E2', 'C05': 'E2+E3', 'C14': 'E1', 'C04': 'E1+E2', 'C06': 'E2+E3', 'C09': 'E2+E3', 'C17': 'E1+E5', 'C08': 'E2', 'C11': 'E2+E5', 'C01': 'E2+E3'}
+REGISTERED = {'C15': 'E1', 'C20': 'E1', 'C19': 'E2', 'C07': 'E3', 'C12': 'E1', 'C10': 'E1+E5', 'C16': 'E1', 'C18': 'E1', 'C02': 'E2', 'C03': 'E2', 'C05': 'E2+E3', 'C14': 'E1', 'C04': 'E1+E2', 'C06': 'E2+E3', 'C09': 'E2+E3', 'C17': 'E1+E5', 'C08': 'E2', 'C11': 'E2+E5', 'C01': 'E2+E3', 'C13': 'E1+E5'}
 for pid, eng in REGISTERED.items():
     if pid not in CHECKS:
         r = from_notes(pid)
